@@ -115,7 +115,7 @@ Proof.
   destruct (m_key m) as [k|]; [|exists s; split; [reflexivity|left; reflexivity]].
   destruct (k =? s_rpwd s); [|exists s; split; [reflexivity|left; reflexivity]]. cbn [negb].
   destruct (find_remote (c_net l) src s) as [rc|]; [|exists s; split; [reflexivity|left; reflexivity]].
-  unfold seq, with_state.
+  unfold seq, dispatch_success, with_state.
   destruct (handle_success_no_match cfg (s_ctl s) s l rc src m Hn) as [pend E].
   rewrite E. unfold seen, modify. cbn [fst snd app].
   eexists. split; [reflexivity|]. right. exists pend. eexists. reflexivity.
